@@ -201,7 +201,8 @@ def check_case(ctx, gname, gtext, c, st_out, ix_out, stats):
     probs = []
     kf_dup = False
     nodes = c["nodes"]
-    wf, rc, amb, nodup, first = st_out
+    wf, rc, amb, nodup, first, distinct_ok = st_out
+    stats["distinct_ok_forests"] = stats.get("distinct_ok_forests", 0) + (1 if distinct_ok else 0)
     if not wf:
         probs.append(("harness", "model says the forest dump is not well-formed"))
         return probs, kf_dup
@@ -251,6 +252,9 @@ def check_case(ctx, gname, gtext, c, st_out, ix_out, stats):
             stats["oracle"] += 1
             if len(ts) != n:
                 probs.append(("impl", "solutions=%d but the forest unfolds to %d trees" % (n, len(ts))))
+            if distinct_ok and len(set(ts)) != len(ts):
+                probs.append(("harness", "forest_distinct_ok holds but the enumerated trees are not distinct "
+                              "(contradicts theorem C03_distinct: dump/codec error)"))
             if nodup and len(set(ts)) != len(ts):
                 # distinct alternatives but equal trees: e.g. two Parents with the same key
                 probs.append(("impl", "forest represents %d trees, only %d distinct"
